@@ -14,7 +14,11 @@ def _trace():
     return _verif.TRACE
 
 
+@pytest.hookimpl(tryfirst=True)
 def pytest_runtest_setup(item):
+    from asphalt.core import _verif
+    if hasattr(_verif, "reset"):
+        _verif.reset()   # contexts and types are numbered per test
     _mark[item.nodeid] = len(_trace())
 
 
